@@ -83,7 +83,7 @@ fn strategy() -> BoxedStrategy<Case> {
         // seeds whose per-chain offsets (seed + i + 1) wrap are given real weight
         prop_oneof![3 => super::c18::seed_strategy(), 1 => (0u64..8).prop_map(|k| u64::MAX - k)],
         any::<u64>(),
-        1usize..=8,
+        prop_oneof![6 => 1usize..=8, 1 => 9usize..=24],
         4usize..12,
         0usize..8,
         proptest::collection::vec(1usize..=16, 1..4),
@@ -272,6 +272,35 @@ fn check(c: &Case, cov: &mut Cov) -> CheckResult {
         let _ = h.join();
     }
     result?;
+    // ... and regardless of whether progress reporting is used (NUTS: shifted by its one-draw offset)
+    if progress {
+        let dim = 2;
+        if c.kind != 3 {
+            let plain = run_once(c, c.seed, 1, false)?;
+            ensure!(
+                plain == base,
+                "progress-changes-draws",
+                "{} with seed {}: run_progress({},{}) returns draws that differ bitwise from run({},{}) of an identically built sampler",
+                ["MH", "Gibbs", "HMC", "NUTS"][c.kind as usize],
+                c.seed,
+                c.n_collect,
+                c.n_discard,
+                c.n_collect,
+                c.n_discard
+            );
+        } else {
+            let mut longer = c.clone();
+            longer.n_collect = c.n_collect + 1;
+            let plain = run_once(&longer, c.seed, 1, false)?;
+            let per = (c.n_collect + 1) * dim;
+            for ch in 0..c.chains {
+                let want = &plain[ch * per + dim..(ch + 1) * per];
+                let got = &base[ch * c.n_collect * dim..(ch + 1) * c.n_collect * dim];
+                ensure!(want == got, "progress-changes-draws", "NUTS with seed {}: run_progress({},{}) differs bitwise from rows 1.. of run({},{}) (chain {ch})", c.seed, c.n_collect, c.n_discard, c.n_collect + 1, c.n_discard);
+            }
+        }
+        cov.class("progress-vs-plain-compared");
+    }
     // different seeds => different output
     if c.other_seed != c.seed {
         let other = run_once(c, c.other_seed, 1, false)?;
